@@ -1,7 +1,7 @@
 (* Extract.v — extraction of the executable model to OCaml (ExtrOcamlBasic only). *)
 Require Extraction.
 Require Import ExtrOcamlBasic.
-From QCo.Model Require Import Base Consts Frozen DType Time Codec Policy Writer Reader Spec Words WFile RFile Huff.
+From QCo.Model Require Import Base Consts Frozen DType Time Codec Policy Writer Reader Spec Words WFile RFile Huff RBody RFast RState WState.
 Extraction Language OCaml.
 Extraction "qco_model.ml"
   all_dtypes hdr phys ubits sdt valid representable to_u of_u to_s of_s to_bytes of_bytes
@@ -22,4 +22,5 @@ Extraction "qco_model.ml"
   rd_read_aligned_bytes
   ct_default_prefix ct_from_sorted ct_search_tree ct_search
   wfile_bytes wfile_bytes_ct rf_header rf_chunk_meta
-  rd_read_prefix_table_idx rd_unchecked_read_prefix_table_idx hfrom hsearch hsearch_checked hsearch_unchecked.
+  rd_read_prefix_table_idx rd_unchecked_read_prefix_table_idx hfrom hsearch hsearch_checked hsearch_unchecked
+  ws_init ws_do ws_run ww_init ww_step ww_run.
